@@ -238,3 +238,13 @@ Lemma concurrent_equals_isolated_partial_lemma : forall cp h calls sched i r, in
   nth_error (snd (run_sched h (map (call_script cp) calls) sched)) i = Some (Done r) ->
   exists c, nth_error calls i = Some c /\ r = call_spec h c /\ r = snd (run_iso h (call_script cp c)).
 Proof. intros cp h calls sched i r Hi Hf _ Hn. eapply concurrent_equals_isolated_lemma; eauto. Qed.
+
+(* the hint is validated before use, so alone the closure is a function of x whatever the cell held ... *)
+Lemma hint_isolated_independent_example :
+  forallb (fun last => Z.eqb (lookup_isolated [0; 10; 20; 30]%Z [0; 100; 400; 900]%Z 25 last) 400) [0; 1; 2] = true.
+Proof. vm_compute. reflexivity. Qed.
+
+(* ... but two evaluations sharing the cell: A (x = 25, interval 2) gets B's interval (x = 5, interval 0) *)
+Lemma constant_with_state_lemma : exists xs ys xa xb last,
+  lookup_isolated xs ys xa last = 400%Z /\ lookup_interleaved xs ys xa xb last = 0%Z.
+Proof. exists [0; 10; 20; 30]%Z, [0; 100; 400; 900]%Z, 25%Z, 5%Z, 0. split; vm_compute; reflexivity. Qed.
